@@ -619,6 +619,10 @@ func engQuery(e *Env) {
 		for ai := 0; ai < nAgg; ai++ {
 			f := genFilter(r, 2)
 			fld := 2 + r.Intn(2) // qty or price
+			if ai%5 == 4 {
+				// a condition on the aggregated field itself (the planner adds its own not-null condition there)
+				f = &qfilter{op: "field", field: fld, cond: genCond(r, qFields[fld].kind)}
+			}
 			rows, _ := w.run(argsOf(f, nil, 0, 0))
 			var nums []float64
 			var sum8 int64
